@@ -27,6 +27,10 @@ CHECKS = {
   text="Coq theorems C11_rook/C11_bishop/C11_queen: for every square and EVERY occupancy the model of init_*_magics + slider_attack<> (instantiated with the magics and index widths re-extracted from the working tree on every run) returns exactly the ray-walk-until-first-blocker set; proved by an exhaustive kernel sweep over all 107,648 table entries lifted to all occupancies by pdep/pext and walk-independence lemmas. Leaper, ray, LINES, FULL_LINES and castling tables: the tables the current code built (dumped each run) are proved equal to their geometric specs entry by entry. Tie: B1 regeneration of Gen/MagicData.v + B2 exhaustive differential run of the real slider_attack<>/tables against the extracted spec.",
   note="Trusted: Coq kernel + vm_compute; dumper.cpp; extraction (ExtrOcamlBasic) and the two drivers; the model of the init loop is hand-written and tied by B2 (exhaustive over the 107,648 relevant subsets + random full occupancies). shift<> is proved linear and single-square pawn attacks exact; no axioms (Print Assumptions: closed under the global context).",
   tech="Coq proof: exhaustive vm_compute sweep + lifting lemma; translator-regenerated data; exhaustive differential correspondence"),
+ "C12": dict(
+  text="Coq theorem C12_bitbase: the table THE CURRENT CODE built (bitbase::init, dumped on every run), read through the model of bitbase::normalize / getIndex / check, marks a legal placement as won iff the pawn's side can force a safe promotion against every defence (KpkWin = least fixed point of the KPK game written from the rules: king steps not into attack, single / double pawn step with BOTH squares empty, capture of the pawn, promotion), for all 2 x 64 x 48 x 64 placements, both colours (C12_bitbase_black), both sides to move, all eight files. Proof: a generic game-certificate theorem (sound by induction on a rank, complete by induction on the Win derivation) whose single obligation, a local check at all 393,216 indices, is discharged by kernel computation (vm_compute, 8 shards); the rank table is computed inside Coq and untrusted. Tie: B1 the dump of this build's BITBASE; B2 exhaustive: bitbase::normalize+check on all 786,432 lookups and the evaluator's verdict (score >= VALUE_KNOWN_WIN) on all 662,704 legal placements equal the model.",
+  note="Assumed chess fact in the spec's terminal rule: a promotion whose new piece cannot be captured at once wins (K+Q or K+R v K). Print Assumptions lists only the kernel's primitive Uint63/PArray operations (they hold the table and the rank certificate). Trusted: kernel + vm_compute, dumper.cpp, extraction, drivers. When the certificate fails the check solves the game from the spec, diffs against the table and confirms the first wrong entries on the real bitbase::check.",
+  tech="Coq proof: game-certificate theorem + exhaustive kernel-evaluated certificate check of the dumped table; exhaustive differential correspondence"),
  "C15": dict(
   text="Rules-level spec of the three answers (capture = a piece or en-passant pawn is removed, quiet = nothing captured or promoted, gives check = opponent king attacked in Rules.move_board) and an algorithmic Coq model of move_is_quiet / move_is_capture / move_gives_check over the engine representation (slider lookups replaced by the ray walk, justified by theorem C11). Every legal move of generated positions (promotion-, castling-, pin-, en-passant-heavy templates) is classified by the engine, the spec and the algorithmic model; all three must agree. Theorems so far: spec-level consistency (quiet excludes capture, castling is quiet).",
   note="Partial: the refinement theorem 'algorithmic model = spec for every legal move of every valid position' (geometry of direct / discovered / en-passant / castling checks) is not proved yet; that half rests on the 3-way correspondence. No axioms.",
